@@ -1,4 +1,5 @@
 import BitcaskVerif.Props.C09
+import BitcaskVerif.Props.C09Lives
 
 #print axioms Store.c09_put_synced
 #print axioms Store.c09_delete_synced
@@ -16,3 +17,18 @@ import BitcaskVerif.Props.C09
 #print axioms Store.c09_history_durable_partial
 #print axioms Store.c09_history_durable_fresh_partial
 #print axioms Store.c09_boundary_synced2
+-- any number of lives, crashes inside merges included (Props/C09Lives.lean)
+#print axioms Store.c09_lives_images
+#print axioms Store.c09_lives_reachL
+#print axioms Store.c09_lives_invariant
+#print axioms Store.c09_lives_op_durable_partial
+#print axioms Store.c09_lives_merge_durable_prefixes_partial
+#print axioms Store.c09_lives_merge_partial
+#print axioms Store.c09_lives_next_life
+#print axioms Store.c09_lives_boundary_synced
+#print axioms Store.c09_lives_cut_back
+#print axioms Store.powerLoss3_self
+#print axioms Store.pImg_powerLoss3
+#print axioms Store.pS1_reach
+#print axioms Store.pS1_eq
+#print axioms Store.c09_lives_tail_counterexample
